@@ -18,10 +18,11 @@ RULE = ("every boolean mask of every shape with H*W <= N (see exhaustive_subspac
         "mostly-unmasked with pin holes, with and without a masked padding ring) with kernels in {1,3,5,7}^2 and a few "
         "even / non-positive kernels. Non-trivial = the mask has at least one unmasked pixel; distinct = distinct JSON input.")
 EXHAUSTIVE = {
-    "quick": "util edge/border/buffed: all masks of all shapes with H*W <= 12 (35 978 masks, outer-ring pixels included); "
-             "public derive_* views: all masks with H*W <= 9; blurring (util and public alternating): all masks with "
-             "H*W <= 9 x kernels {1,3}^2, and all 3x4 / 4x3 masks x kernel (3,3)",
-    "thorough": "as quick, plus util + public views on all 4x4, 3x5 and 5x3 masks, public views on all H*W <= 12, "
+    "quick": "util edge/border/buffed: all masks of all shapes with H*W <= 10 and all 3x4 / 4x3 masks (15 498 masks, "
+             "outer-ring pixels included); public derive_* views and check_if_edge_pixel: all masks with H*W <= 9; blurring "
+             "(util and public alternating): all masks with H*W <= 9 x kernels (1,1), (3,3) and every other one of (1,3), (3,1), "
+             "and all 3x4 / 4x3 masks x kernel (3,3)",
+    "thorough": "util on all masks of all shapes with H*W <= 12 (35 978 masks) and on all 4x4, 3x5 and 5x3 masks, public views on all of these, "
                 "blurring on all masks H*W <= 12 x kernels {1,3,5}^2 and on all 5x5 masks with a masked outer ring x kernels {1,3,5}^2",
 }
 TRUSTED = ["correspondence harness harness/c10.py (mask/array printing; grid coordinates are doubled and must be integers, "
@@ -109,17 +110,20 @@ KS = [1, 3, 5, 7]
 def gen_inputs(tier, rng):
     big = tier == "thorough"
     i = 0
-    # ---- exhaustive, util level
+    # ---- exhaustive, util level (quick: all shapes with H*W <= 10 plus 3x4 / 4x3, the 12-cell shapes that have interior
+    #      pixels; thorough: all shapes with H*W <= 12)
     for (h, w) in shapes_upto(12):
+        if not big and h * w > 10 and (h, w) not in ((3, 4), (4, 3)): continue
         for ms in all_masks(h, w):
             i += 1
             yield {"op": "util", "m": ms, "buffer": i % 3}
             if h * w <= 9 or (big and i % 4 == 0): yield {"op": "checkedge", "m": ms}
             if h * w <= 9 or big: yield {"op": "views", "m": ms, "g": GEOMS[i % 4]}
-            if h * w <= 9:
+            if h * w <= 9 and not big:
                 for k in ([1, 1], [1, 3], [3, 1], [3, 3]):
                     i += 1
-                    yield {"op": "blurutil" if i % 2 else "blur", "m": ms, "k": k}
+                    if k[0] != k[1] and i % 2: continue
+                    yield {"op": "blurutil" if (i // 2) % 2 else "blur", "m": ms, "k": k}
             elif big:
                 for k in itertools.product([1, 3, 5], repeat=2):
                     i += 1
